@@ -185,6 +185,8 @@ def c12(tier):
     for form in range(6):
         for n in range(1, 3 if q else 4):
             jobs.append((H('parser', 'HarnessC12Number'), P('parser'), None, {'params': {'form': form, 'n': n}, 'label': 'number form=%d n=%d' % (form, n), 'split_after': 30, 'job_timeout': 1500}))
+    for n in (16, 17, 18):
+        jobs.append((H('parser', 'HarnessC12Number'), P('parser'), None, {'params': {'form': 6, 'n': n}, 'label': 'number form=6 (long decimal) n=%d' % n, 'split_after': 30, 'job_timeout': 1500}))
     import random, itertools
     NT = 12
     rnd = random.Random(SEED[0])
@@ -197,7 +199,7 @@ def c12(tier):
         rnd.shuffle(pairs)
         layouts = [l for l in layouts if len(l) != 2] + pairs[:60]
     for lay in layouts:
-        prm = {'k': len(lay), 'gap': 2 if len(lay) < 3 else 1}
+        prm = {'k': len(lay), 'gap': 2 if (len(lay) < 3 and 4 not in lay) else 1}
         for i, t in enumerate(lay):
             prm['t%d' % i] = t
         jobs.append((H('parser/lexer', 'HarnessC12Positions'), P('parser/lexer'), None, {'params': prm, 'label': 'positions tokens=%s gap<=%d' % (list(lay), prm['gap']), 'job_timeout': 600}))
@@ -361,7 +363,23 @@ def c16(tier):
     return jobs, meta
 
 
+def c13(tier):
+    import templates
+    jobs = []
+    for t, mode in templates.C13_TEMPLATES:
+        jobs.append((H('.', 'HarnessC13Position'), P('.'), None, {'params': {'tmpl': t, 'mode': mode}, 'label': '%s [mode %d]' % (t, mode), 'split_after': 40, 'job_timeout': 900}))
+    meta = {
+        'explanation': 'each template is a source with ONE fault (compile time: unknown name, field, function, type mismatch at one operator, bad argument, non-boolean condition/predicate, syntax error at one token; run time: exactly one failing operation - division by zero, index out of range, nil pointer, bad pattern, panicking environment function - among guarded ones) laid out with SYMBOLIC whitespace (space, tab or line break at each ~, so the fault lands on any line and column) and with multi-byte characters before the fault; the whole real pipeline (lexer on symbolic bytes, parser, checker, compiler location table, VM recover, file.Error.Bind, Source.Snippet) runs symbolically with symbolic token locations; z3 decides that the reported line/column is the first character of the marked token, that the location lies inside the source and that the snippet first line is the source line it names',
+        'bounds': {'templates': len(templates.C13_TEMPLATES), 'symbolic whitespace positions per template': '1..4 (3 values each)', 'lines': '<= 5'},
+        'outside': ['lexer-internal errors (the suite pins their column as the scanner position)', 'faults and constructs beyond the listed templates', 'the caret line of the snippet'],
+        'assumptions': COMMON_ASSUME,
+        'must_reach': ['c13.compiled', 'c13.ran'],
+    }
+    return jobs, meta
+
+
 PROPS = {
+    'C13': c13,
     'C16': c16,
     'C03': c03,
     'C17': c17,
